@@ -310,7 +310,10 @@ pub fn chunked(a: &[String]) -> Value {
     let n: usize = a[0].parse().unwrap();
     let cs: usize = a[1].parse().unwrap();
     let variant = a[2].as_str();
-    let payload: Vec<u8> = (0..n).map(|i| b'a' + (i % 23) as u8).collect();
+    // "declared-short": the chunks are correctly signed, chained and terminated but carry MORE bytes than x-amz-decoded-content-length
+    // declares (the declared value is what is signed): the upload does not total the declared length and must not end successfully
+    let n_sent = if variant == "declared-short" { n * 2 + 3 } else { n };
+    let payload: Vec<u8> = (0..n_sent).map(|i| b'a' + (i % 23) as u8).collect();
     let (date, stamp) = now_stamp(0);
     let host = "localhost";
     let scope = format!("{date}/us-east-1/s3/aws4_request");
